@@ -53,6 +53,10 @@ type ChainReq struct {
 	Health  bool   `json:"health"`
 	Body    int64  `json:"body"` // SecurityRequest.BodySize (−1 = unknown / chunked)
 	SleepMs int    `json:"sleep_ms,omitempty"`
+	// AgeMs > 0: before this request, AgeMs of silence are SIMULATED: every time stamp the rate-limit validator keeps
+	// (last access per key, the x/time/rate limiters' clocks) moves that far into the past and the periodic clean-up
+	// runs once, as its ticker would have during the silence. Reported times include the simulated span.
+	AgeMs int64 `json:"age_ms,omitempty"`
 }
 
 type ChainObs struct {
@@ -85,13 +89,20 @@ func runChain(l Limits, reqs []ChainReq) (out []ChainObs, errs string) {
 	svc, ad := security.NewSecurityServices(cfg, nil, vlib.QuietLogger())
 	defer ad.Stop()
 	start := time.Now()
+	var aged time.Duration
 	for _, q := range reqs {
 		if q.SleepMs > 0 {
 			time.Sleep(time.Duration(q.SleepMs) * time.Millisecond)
 		}
-		t0 := time.Since(start).Nanoseconds()
+		if q.AgeMs > 0 {
+			d := time.Duration(q.AgeMs) * time.Millisecond
+			security.VerifAge(ad.RateLimit, d)
+			security.VerifSweep(ad.RateLimit)
+			aged += d
+		}
+		t0 := (time.Since(start) + aged).Nanoseconds()
 		res, err := svc.Chain.Validate(context.Background(), ports.SecurityRequest{ClientID: q.Client, IsHealthCheck: q.Health, BodySize: q.Body, Endpoint: "/x", Method: "POST"})
-		t1 := time.Since(start).Nanoseconds()
+		t1 := (time.Since(start) + aged).Nanoseconds()
 		if err != nil {
 			errs = err.Error()
 		}
@@ -448,9 +459,34 @@ func main() {
 		// the silence is far too short to refill a token, so it must still be refused
 		for _, cl := range []int{50, 100} {
 			id := fmt.Sprintf("9.9.9.9#c%d", cl)
-			q := []ChainReq{{id, false, 10, 0}, {id, false, 10, 0}, {id, false, 10, 0}, {id, false, 10, 0},
-				{id, false, 10, 6 * cl}, {id, false, 10, 0}, {id, false, 10, 0}, {id, false, 10, 3 * cl}, {id, false, 10, 0}}
+			q := []ChainReq{{id, false, 10, 0, 0}, {id, false, 10, 0, 0}, {id, false, 10, 0, 0}, {id, false, 10, 0, 0},
+				{id, false, 10, 6 * cl, 0}, {id, false, 10, 0, 0}, {id, false, 10, 0, 0}, {id, false, 10, 3 * cl, 0}, {id, false, 10, 0, 0}}
 			chains = append(chains, chainCase{Limits{0, 6, 0, 3, 0}, q})
+		}
+		// long silences, simulated (AgeMs): a client drains its burst, is silent for a while, comes back. The silence
+		// buys back rate x silence tokens and nothing more, whatever the clean-up of idle limiters did meanwhile.
+		for _, sc := range []struct {
+			perIP, burst int
+			ageMin       float64
+		}{{1, 12, 10.5}, {1, 12, 16}, {1, 20, 10.5}, {2, 30, 11}, {6, 20, 1.1}, {6, 20, 2.5}, {1, 5, 11}, {3, 40, 12}, {1, 12, 5}, {100, 50, 11}} {
+			id := "9.9.9.7"
+			if sc.ageMin < 5 {
+				id = "9.9.9.7#c100" // a short cleanup_interval is configured
+			}
+			var q []ChainReq
+			for i := 0; i < sc.burst+2; i++ {
+				q = append(q, ChainReq{Client: id, Body: 10})
+			}
+			q = append(q, ChainReq{Client: id, Body: 10, AgeMs: int64(sc.ageMin * 60000)})
+			for i := 0; i < sc.burst+1; i++ {
+				q = append(q, ChainReq{Client: id, Body: 10})
+			}
+			// a second silence, then once more
+			q = append(q, ChainReq{Client: id, Body: 10, AgeMs: int64(sc.ageMin * 60000)})
+			for i := 0; i < sc.burst+1; i++ {
+				q = append(q, ChainReq{Client: id, Body: 10})
+			}
+			chains = append(chains, chainCase{Limits{0, sc.perIP, 0, sc.burst, 0}, q})
 		}
 		if tier == "thorough" {
 			// the same, over a silence of more than a minute with a bucket that needs 200 s to refill:
@@ -462,22 +498,22 @@ func main() {
 				if i == 22 {
 					sl = 65000
 				}
-				q = append(q, ChainReq{id, false, 10, sl})
+				q = append(q, ChainReq{id, false, 10, sl, 0})
 			}
 			chains = append(chains, chainCase{Limits{0, 6, 0, 20, 0}, q})
 		}
 		chains = append(chains,
-			chainCase{Limits{0, 2, 0, 2, 0}, mkReqs(6, []string{"1.1.1.1"}, 0, 10)},                                                                                           // burst then refuse
-			chainCase{Limits{0, 2, 0, 2, 0}, mkReqs(8, []string{"1.1.1.1:1000", "1.1.1.1:1001"}, 0, 10)},                                                                      // two ids, two buckets
-			chainCase{Limits{3, 5, 0, 2, 0}, mkReqs(8, []string{"a", "b", "c"}, 0, 10)},                                                                                       // global binds first
-			chainCase{Limits{3, 0, 0, 2, 0}, mkReqs(8, []string{"a"}, 0, 10)},                                                                                                 // per-ip 0: bypass (even the global limiter)
-			chainCase{Limits{0, 2, 1, 1, 0}, mkReqs(9, []string{"a"}, 3, 10)},                                                                                                 // health split
-			chainCase{Limits{0, 2, 0, 1, 0}, mkReqs(6, []string{"a"}, 2, 10)},                                                                                                 // health limit 0: health requests bypass
-			chainCase{Limits{0, 3, 3, 0, 0}, mkReqs(4, []string{"a"}, 0, 10)},                                                                                                 // burst 0: nothing admitted
-			chainCase{Limits{0, 100, 0, 3, 1000}, []ChainReq{{"a", false, 999, 0}, {"a", false, 1000, 0}, {"a", false, 1001, 0}, {"a", false, -1, 0}, {"a", false, 5000, 0}}}, // size on declared length only
-			chainCase{Limits{0, 1, 0, 1, 1000}, []ChainReq{{"a", false, 5000, 0}, {"a", false, 10, 0}}},                                                                       // an oversize request still spends the token
-			chainCase{Limits{0, 120, 0, 1, 0}, []ChainReq{{"a", false, 1, 0}, {"a", false, 1, 100}, {"a", false, 1, 700}, {"a", false, 1, 50}}},                               // refill: 2 tokens/s
-			chainCase{Limits{0, 60, 0, 2, 0}, []ChainReq{{"a", false, 1, 0}, {"a", false, 1, 0}, {"a", false, 1, 0}, {"a", false, 1, 1300}, {"a", false, 1, 0}}},              // refill: 1 token/s
+			chainCase{Limits{0, 2, 0, 2, 0}, mkReqs(6, []string{"1.1.1.1"}, 0, 10)},                                                                                                          // burst then refuse
+			chainCase{Limits{0, 2, 0, 2, 0}, mkReqs(8, []string{"1.1.1.1:1000", "1.1.1.1:1001"}, 0, 10)},                                                                                     // two ids, two buckets
+			chainCase{Limits{3, 5, 0, 2, 0}, mkReqs(8, []string{"a", "b", "c"}, 0, 10)},                                                                                                      // global binds first
+			chainCase{Limits{3, 0, 0, 2, 0}, mkReqs(8, []string{"a"}, 0, 10)},                                                                                                                // per-ip 0: bypass (even the global limiter)
+			chainCase{Limits{0, 2, 1, 1, 0}, mkReqs(9, []string{"a"}, 3, 10)},                                                                                                                // health split
+			chainCase{Limits{0, 2, 0, 1, 0}, mkReqs(6, []string{"a"}, 2, 10)},                                                                                                                // health limit 0: health requests bypass
+			chainCase{Limits{0, 3, 3, 0, 0}, mkReqs(4, []string{"a"}, 0, 10)},                                                                                                                // burst 0: nothing admitted
+			chainCase{Limits{0, 100, 0, 3, 1000}, []ChainReq{{"a", false, 999, 0, 0}, {"a", false, 1000, 0, 0}, {"a", false, 1001, 0, 0}, {"a", false, -1, 0, 0}, {"a", false, 5000, 0, 0}}}, // size on declared length only
+			chainCase{Limits{0, 1, 0, 1, 1000}, []ChainReq{{"a", false, 5000, 0, 0}, {"a", false, 10, 0, 0}}},                                                                                // an oversize request still spends the token
+			chainCase{Limits{0, 120, 0, 1, 0}, []ChainReq{{"a", false, 1, 0, 0}, {"a", false, 1, 100, 0}, {"a", false, 1, 700, 0}, {"a", false, 1, 50, 0}}},                                  // refill: 2 tokens/s
+			chainCase{Limits{0, 60, 0, 2, 0}, []ChainReq{{"a", false, 1, 0, 0}, {"a", false, 1, 0, 0}, {"a", false, 1, 0, 0}, {"a", false, 1, 1300, 0}, {"a", false, 1, 0, 0}}},              // refill: 1 token/s
 		)
 		nchain := 150
 		if tier == "thorough" {
@@ -499,6 +535,31 @@ func main() {
 					body = vlib.Pick(r, []int64{-1, 0, 99, 100, 101, 999, 1000, 1001, 5000})
 				}
 				q = append(q, ChainReq{Client: vlib.Pick(r, cl), Health: r.Chance(1, 4), Body: body})
+			}
+			chains = append(chains, chainCase{l, q})
+		}
+		// random streams with simulated silences between 30 s and 25 min (several clients, health and non-health
+		// paths, optional global limiter): own PRNG stream so the cases above do not shift
+		ra := vlib.NewRng(vlib.Seed() ^ 0xA6ED)
+		nage := 60
+		if tier == "thorough" {
+			nage = 1200
+		}
+		for i := 0; i < nage; i++ {
+			l := Limits{Global: vlib.Pick(ra, []int{0, 0, 0, 30}), PerIP: vlib.Pick(ra, []int{1, 1, 2, 3, 6, 60}), Health: vlib.Pick(ra, []int{0, 1, 3}),
+				Burst: vlib.Pick(ra, []int{1, 3, 5, 12, 20, 40}), MaxBody: 0}
+			cl := []string{"10.1.0.1", "10.1.0.2"}[:1+ra.Intn(2)]
+			var q []ChainReq
+			n := 3 + ra.Intn(4)
+			for seg := 0; seg < n; seg++ {
+				m := 1 + ra.Intn(l.Burst+3)
+				for k := 0; k < m; k++ {
+					cr := ChainReq{Client: vlib.Pick(ra, cl), Health: ra.Chance(1, 6), Body: 10}
+					if k == 0 && seg > 0 {
+						cr.AgeMs = int64(30000 + ra.Intn(25*60000))
+					}
+					q = append(q, cr)
+				}
 			}
 			chains = append(chains, chainCase{l, q})
 		}
